@@ -41,7 +41,11 @@ impl Gen {
         Gen {
             rng: Rng::new(seed),
             model,
-            script: Script { cfg, stmts: Vec::new() },
+            script: Script {
+                cfg,
+                stmts: Vec::new(),
+                alloc: None,
+            },
             next_id: 0,
             kinds: Vec::new(),
             nontrivial: false,
@@ -80,6 +84,7 @@ impl Gen {
             Script {
                 cfg: RunCfg::default(),
                 stmts: Vec::new(),
+                alloc: None,
             },
         )
     }
